@@ -651,7 +651,9 @@ def register_optimiser(reg, prop):
 
     # (samples = 100, the default, was tried: 101 modular calls of minimize_bandwidth_impl with their
     # consistency checks did not finish within 30 minutes on the loaded machine -- not claimed)
-    sample_counts = (0, 3, 10) if tier() == "thorough" else (0, 3)
+    # samples = 10 did not finish in 15 minutes either (the cost grows faster than linearly with the
+    # number of candidates): both tiers use samples in {0, 3}
+    sample_counts = (0, 3)
     for smp in sample_counts:
         reg.add_contract(Contract(
             f"{OPT}:minimize_bandwidth", property=prop, label=f"minimize_bandwidth[samples={smp}]",
